@@ -27,11 +27,13 @@ type c14copy struct {
 }
 
 type c14run struct {
-	parents  [][]int // DAG shape: parents of event i (indices < i)
-	order    []int   // push order (event indices; an index may appear twice = duplicate copy)
-	failProc map[int]bool
-	failChk  map[int]bool
-	limit    dag.Metric
+	extConn     map[int]int // while event k is processed, event v becomes connected through another path
+	nilReleased bool        // the application installs no Released callback
+	parents     [][]int     // DAG shape: parents of event i (indices < i)
+	order       []int       // push order (event indices; an index may appear twice = duplicate copy)
+	failProc    map[int]bool
+	failChk     map[int]bool
+	limit       dag.Metric
 }
 
 func c14events(parents [][]int, salt uint64) []*cons.Ev {
@@ -97,6 +99,9 @@ func c14execute(run *c14run, evs []*cons.Ev) (cls, why string, cascade2 bool, wa
 				return errProc
 			}
 			connected[e.ID()] = true
+			if q, ok := run.extConn[cp.n]; ok {
+				connected[evs[q].ID()] = true // e.g. a local emitter or a second processor sharing the store
+			}
 			depth++
 			if depth >= 2 {
 				cascade2 = true
@@ -128,6 +133,9 @@ func c14execute(run *c14run, evs []*cons.Ev) (cls, why string, cascade2 bool, wa
 			return nil
 		},
 	}
+	if run.nilReleased {
+		cb.Released = nil
+	}
 	buf = dagordering.New(run.limit, cb)
 	for k, n := range run.order {
 		cp := &c14copy{Ev: evs[n], n: n, pushNo: k}
@@ -147,6 +155,9 @@ func c14execute(run *c14run, evs []*cons.Ev) (cls, why string, cascade2 bool, wa
 		if t.Num > run.limit.Num || t.Size > run.limit.Size {
 			fail("limits-exceeded-after-push", fmt.Sprintf("Total()=%v limit=%v after push #%d", t, run.limit, k))
 			return
+		}
+		if run.nilReleased {
+			continue
 		}
 		// IsBuffered == some copy with this id was pushed and not yet released
 		pending := map[hash.Event]bool{}
@@ -174,6 +185,9 @@ func c14execute(run *c14run, evs []*cons.Ev) (cls, why string, cascade2 bool, wa
 		return
 	}
 	for _, cp := range copies {
+		if run.nilReleased {
+			break
+		}
 		if cp.released != 1 {
 			fail("copy-not-released-exactly-once", fmt.Sprintf("copy #%d of %s released %d times by the time the buffer was cleared", cp.pushNo, cp.Name, cp.released))
 			return
@@ -193,7 +207,7 @@ func c14desc(run *c14run) map[string]interface{} {
 	for k := range run.failChk {
 		fc = append(fc, k)
 	}
-	return map[string]interface{}{"parents_of_event": fmt.Sprint(run.parents), "push_order": fmt.Sprint(run.order), "failing_process": fp, "failing_check": fc, "limit": run.limit.String()}
+	return map[string]interface{}{"connected_through_another_path_during_process": fmt.Sprint(run.extConn), "no_released_callback": run.nilReleased, "parents_of_event": fmt.Sprint(run.parents), "push_order": fmt.Sprint(run.order), "failing_process": fp, "failing_check": fc, "limit": run.limit.String()}
 }
 
 func c14perms(n int, f func([]int)) {
@@ -309,6 +323,14 @@ func runC14(c *ev.Ctx) {
 			variants = append(variants, &c14run{parents: j.parents, order: dup, limit: big, failProc: map[int]bool{r.Intn(n): true}})
 			variants = append(variants, &c14run{parents: j.parents, order: append([]int{}, order...), limit: dag.Metric{Num: idx.Event(r.Intn(3)), Size: size}})
 			variants = append(variants, &c14run{parents: j.parents, order: append([]int{}, order...), limit: dag.Metric{Num: idx.Event(n), Size: uint64(evs[0].Size()) + uint64(r.Intn(100))}})
+			ext := &c14run{parents: j.parents, order: append([]int{}, order...), limit: big, extConn: map[int]int{}}
+			if n >= 2 {
+				a := r.Intn(n - 1)
+				ext.extConn[a] = a + 1 + r.Intn(n-a-1)
+			}
+			variants = append(variants, ext)
+			variants = append(variants, &c14run{parents: j.parents, order: append([]int{}, order...), limit: big, nilReleased: true, failProc: map[int]bool{r.Intn(n): true}})
+			variants = append(variants, &c14run{parents: j.parents, order: append([]int{}, order...), limit: big, nilReleased: true, failChk: map[int]bool{r.Intn(n): true}})
 			for vi, run := range variants {
 				cls, why, casc, waited := c14execute(run, evs)
 				c.Eval(1)
